@@ -35,7 +35,7 @@ def Ini2 (kk : Nat) (ini : Nat → St → R) : Prop :=
     c < kk → c < n → Inv B s → (∀ b ∈ B, c < b) → (s.mgrs c).inst = none → Inv2 n D X Q s →
     Eff s (ini c s).1 ∧
     ((Inv2 n D (fun x => X x ∨ x = c) Q (ini c s).1 ∧ ((ini c s).1.mgrs c).inst ≠ none ∧
-        ((ini c s).1.mgrs c).avail = true) ∨
+        ((ini c s).1.mgrs c).avail = true ∧ (ini c s).2 = none) ∨
      (Inv2 n D X Q (ini c s).1 ∧ ((ini c s).1.mgrs c).inst = none))
 
 theorem exitFrames_2 {kk : Nat} {rx : Frame → St → Option Exc → R} (hS : RxSpec rx) (h2 : Rx2 kk rx) :
